@@ -40,7 +40,7 @@ theorem rtx_decimal (XO : XOracles) (opts : DeserOpts) (o : NumOpts) (v : PyVal)
   refine ⟨.float q, ?_, rfl, rfl, ?_, ?_⟩
   · simp [serX, sDecimal, hq]
   · simp [deserX, PyVal.isNone, dDecimal, xConvDecimal, PyVal.asNum]
-  · simp [validateX, vDecimal, xConvDecimal, PyVal.asNum, hn]
+  · simp [validateX, sxDecimal, xConvDecimal, PyVal.asNum, hn]
 
 theorem rtx_enumVal (XO : XOracles) (opts : DeserOpts) (cls : String) (ms : List (String × PyVal))
     (mx : Bool) (v : PyVal) (h : xFrag XO (.enumVal cls ms mx) v = true) :
@@ -142,7 +142,7 @@ theorem c05_noNone_validate (XO : XOracles) (x : XDecl) (h : xNoNone x = true) :
     · exact ⟨.typeErr, by simp [validateX, validate, vString], rfl⟩
     · exact ⟨.typeErr, by simp [validateX, validate, vBoolean], rfl⟩
     · exact ⟨.valueErr, by simp [validateX, validate, vEnumCls], rfl⟩
-  | decimal o => exact ⟨.typeErr, by simp [validateX, vDecimal, xConvDecimal, PyVal.asNum], rfl⟩
+  | decimal o => exact ⟨.typeErr, by simp [validateX, sxDecimal, xConvDecimal, PyVal.asNum], rfl⟩
   | enumVal cls ms mx =>
     simp only [xNoNone, Bool.not_eq_true'] at h
     exact ⟨.valueErr, by simp [validateX, vEnumVal, h], rfl⟩
